@@ -444,3 +444,15 @@ Proof.
     - injection E as _ <-. lia. }
   lia.
 Qed.
+
+(* Re-encoding what was decoded from an encoding is byte-identical. *)
+Lemma codec_reencode_identical_lemma :
+  forall ver t v bs v',
+    in_int64 ver = true -> wf_ty t = true -> wt t v = true ->
+    encode_file ver t v = Ok bs -> Z.of_nat (length bs) <= max_uint32 ->
+    decode_file ver t bs = Ok v' -> encode_file ver t v' = Ok bs.
+Proof.
+  intros ver t v bs v' Hv W T E L D.
+  destruct (codec_file_roundtrip ver t v Hv W T) as [bs' [E' D']].
+  rewrite E in E'. injection E' as <-. rewrite (D' L) in D. injection D as <-. exact E.
+Qed.
